@@ -73,6 +73,8 @@ type Enc struct {
 	writeRefs map[string]map[string]bool // during discovery: heap key -> object reference terms written
 	discNames map[string]bool            // names introduced during the current discovery pass
 	lastLoopRefs map[string][]string     // result of the last discovery: heap key -> loop-invariant written objects
+	farrMemo     map[string]string       // (object ref, field) -> name of the derived row reference
+	farrBase     map[string]string       // derived row reference name -> object reference term
 	topFn     *ssa.Function
 	pkg       *ssa.Package
 }
@@ -950,7 +952,11 @@ func (e *Enc) discoverWrites(fr *Frame, li *LoopInfo, guard T, st *State) map[st
 		ok := true
 		var rs []string
 		for r := range refs {
-			if strings.ContainsAny(r, " (") || e.discNames[r] {
+			base := r
+			if b, isRow := e.farrBase[r]; isRow {
+				base = b // a row derived from an object known before the loop is itself known before the loop
+			}
+			if strings.ContainsAny(base, " (") || e.discNames[base] {
 				ok = false
 				break
 			}
